@@ -90,6 +90,10 @@ void run(Ctx &ctx) {
     std::vector<Str> bases = resolve_bases(false), refs = resolve_refs(n, false);
     Runner<char> ra(&ctx, &lc); Runner<wchar_t> rw(&ctx, &lc); ra.setup(bases); rw.setup(bases);
     for (size_t i = 0; i < refs.size(); i++) { if (!ctx.mine(i)) continue; if (ctx.expired()) break; ra.run_ref(refs[i]); if (n <= 4 || i % 1 == 0) rw.run_ref(refs[i]); }
+    // references with an authority: every user info x host kind x port combination (and a few spellings that normalisation changes), over four paths
+    { std::vector<Str> aus = authority_product(); for (auto x : { "//H", "//%41", "//U%2d@H%7e:8", "//u@1%2e2.3.4:80", "//[V1.A]:1", "//[::A]" }) aus.push_back(x); uint64_t ai = 0;
+      for (auto &au : aus) for (auto sc : { "", "s:", "S:" }) for (auto pa : { "", "/", "/a/../b", "/%7e/./x" }) for (auto q : { "", "?q" }) { Str r = Str(sc) + au + pa + q;
+          if (!ctx.mine(ai++) || ctx.expired() || !ref::is_uri_reference(r)) continue; ra.run_ref(r); rw.run_ref(r); ctx.st.count("authority_product_refs"); } }
     // stretch family as references (no percent-encoded dot segments, as the statement says) against a few bases
     { std::vector<Str> sb = { "s://h/a/b?bq", "s:/a/b", "s:a/b", "s:", "s://h" }; Runner<char> sa(&ctx, &lc); Runner<wchar_t> sw2(&ctx, &lc); sa.setup(sb); sw2.setup(sb);
       std::vector<Str> st = stretch_list(ctx.secondary || ctx.quick() ? 0 : 1);
